@@ -144,3 +144,218 @@ Print Assumptions C16_storebytes_x2_x4_write_safe.
 Print Assumptions C16_block_apply_exactly.
 Print Assumptions C16_chunks_cover.
 Print Assumptions C16_apply_segments_partition.
+
+(** * c16-tie: the full [try_apply_keystream], lazy absorption, StoreBytes x4 / big-endian / values
+    (Model/SliceApiStream.v; Proofs/SliceApiStream.v, SliceApiStreamReal.v, SliceApiMore.v) *)
+From CC Require Import Model.ChaChaGuts Model.ChaChaStream Model.SliceApiStream.
+From CC Require Import Proofs.ChaChaGutsWords Proofs.ChaChaStreamCtr Proofs.ChaChaStreamSpec Proofs.ChaChaStreamMain.
+From CC Require Import Proofs.SliceApiStream Proofs.SliceApiStreamReal Proofs.SliceApiMore.
+From Coq Require Import ZArith.
+
+(** the FULL body of try_apply_keystream (lazy fill with negative [have], len/fresh check with the
+    Err return, [BLOCK - have] panic, buffered prefix, wide chunks, tail blocks, nonce-word
+    restore) written with the failing accessors, run with the REAL block producers (any number of
+    double rounds), for every memory, slice base address and length and every buffer whose [out]
+    has 64 bytes and whose state has 32-bit words: no access outside the slice; result, successor
+    buffer and slice content afterwards are those of Model/ChaChaStream.v [try_apply] (the model
+    of C02/C11) on the slice's bytes; nothing outside the slice changes *)
+Theorem C16_stream_apply_real_eq_faithful_model :
+  forall dr is12 b m s,
+    slice_ok m s -> length (b_out b) = 64 /\ wf (b_state b) ->
+    exists m',
+      a_try_apply (real_refill1 dr) (real_refill4 dr) is12 b m s
+        = Some (fst (fst (try_apply (real_refill1 dr) (real_refill4 dr) is12 b (sbytes m s))),
+                snd (fst (try_apply (real_refill1 dr) (real_refill4 dr) is12 b (sbytes m s))), m')
+      /\ sbytes m' s = snd (try_apply (real_refill1 dr) (real_refill4 dr) is12 b (sbytes m s))
+      /\ (length m' = length m
+          /\ firstn (s_off s) m' = firstn (s_off s) m
+          /\ skipn (s_off s + s_len s) m' = skipn (s_off s + s_len s) m).
+Proof. exact real_try_apply_spec. Qed.
+
+(** the same for any pair of producers that emit 64 / 256 bytes and keep their states inside a set
+    [okst] (the relative form: the slice contract does not depend on the block function) *)
+Theorem C16_stream_apply_eq_faithful_model :
+  forall (refill1 refill4 : chacha -> list N * chacha) (okst : chacha -> Prop),
+    (forall st, okst st -> length (fst (refill1 st)) = 64 /\ okst (snd (refill1 st))) ->
+    (forall st, okst st -> length (fst (refill4 st)) = 256 /\ okst (snd (refill4 st))) ->
+    forall is12 b m s,
+      slice_ok m s -> length (b_out b) = 64 /\ okst (b_state b) ->
+      exists m',
+        a_try_apply refill1 refill4 is12 b m s
+          = Some (fst (fst (try_apply refill1 refill4 is12 b (sbytes m s))),
+                  snd (fst (try_apply refill1 refill4 is12 b (sbytes m s))), m')
+        /\ sbytes m' s = snd (try_apply refill1 refill4 is12 b (sbytes m s))
+        /\ (length m' = length m
+            /\ firstn (s_off s) m' = firstn (s_off s) m
+            /\ skipn (s_off s + s_len s) m' = skipn (s_off s + s_len s) m).
+Proof. exact a_try_apply_spec. Qed.
+
+(** alignment independence of the full model with the real producers *)
+Theorem C16_stream_apply_real_address_independent :
+  forall dr is12 b m1 s1 m2 s2,
+    slice_ok m1 s1 -> slice_ok m2 s2 -> length (b_out b) = 64 /\ wf (b_state b) ->
+    sbytes m1 s1 = sbytes m2 s2 ->
+    exists r b' m1' m2',
+      a_try_apply (real_refill1 dr) (real_refill4 dr) is12 b m1 s1 = Some (r, b', m1')
+      /\ a_try_apply (real_refill1 dr) (real_refill4 dr) is12 b m2 s2 = Some (r, b', m2')
+      /\ sbytes m1' s1 = sbytes m2' s2.
+Proof. exact real_try_apply_address_independent. Qed.
+
+(** the Err return (stream limit) and the modelled panic perform no access at all *)
+Theorem C16_stream_apply_err_untouched :
+  forall (refill1 refill4 : chacha -> list N * chacha) is12 b m s r b' m',
+    a_try_apply refill1 refill4 is12 b m s = Some (r, b', m') -> r <> ROk -> m' = m.
+Proof. exact a_try_apply_not_ok_untouched. Qed.
+
+(** on every buffer a cipher can reach (the invariant of C02/C11 from a [stream_init] state with
+    32-bit words, plus |out| = 64): Ok within the limit with the SPECIFIED key stream xor-ed into
+    the slice, Err beyond it with memory untouched, never a panic, never an access outside *)
+Theorem C16_stream_apply_reachable_value :
+  forall dr is12 s0, stream_init is12 s0 -> wf s0 ->
+  forall b pos m s,
+    reachable (fun st => fst (refill st dr)) is12 s0 b pos -> length (b_out b) = 64 ->
+    slice_ok m s -> (N.of_nat (s_len s) < 2 ^ 64)%N ->
+    exists r b' m',
+      a_try_apply (real_refill1 dr) (real_refill4 dr) is12 b m s = Some (r, b', m')
+      /\ (length m' = length m
+          /\ firstn (s_off s) m' = firstn (s_off s) m
+          /\ skipn (s_off s + s_len s) m' = skipn (s_off s + s_len s) m)
+      /\ length (b_out b') = 64
+      /\ if (pos + N.of_nat (s_len s) <=? 64 * nblocks is12)%N
+         then r = ROk
+              /\ sbytes m' s = xor_bytes (sbytes m s) (keystream (fun st => fst (refill st dr)) is12 s0 pos (s_len s))
+              /\ reachable (fun st => fst (refill st dr)) is12 s0 b' (pos + N.of_nat (s_len s))%N
+         else r = RErr /\ m' = m /\ reachable (fun st => fst (refill st dr)) is12 s0 b' pos.
+Proof. exact real_apply_reachable. Qed.
+
+(** [m_apply] (the shape of the first four theorems of this file and of Run/SliceApi.v) is the
+    special case 0 <= have <= 64, limit not hit, counter [c] standing for the state [stq c] *)
+Theorem C16_m_apply_is_special_case :
+  forall (refill1 refill4 : chacha -> list N * chacha) (stq : N -> chacha) (k1 k4 : N -> list N),
+    (forall c, refill1 (stq c) = (k1 c, stq (c + 1)%N)) ->
+    (forall c, refill4 (stq c) = (k4 c, stq (c + 4)%N)) ->
+    forall b c m s,
+      (0 <= b_have b <= 64)%Z -> b_state b = stq c ->
+      a_apply_body refill1 refill4 true b m s
+      = if limit_hit b (s_len s) then Some (RErr, b, m)
+        else match m_apply k1 k4 m s (KS (b_out b) (Z.to_nat (b_have b)) c) with
+             | Some (m', st') =>
+                 Some (ROk, Buf (stq (ks_ctr st')) (ks_out st') (Z.of_nat (ks_have st'))
+                                (len_after b (s_len s)) (fresh_after b (s_len s)), m')
+             | None => None
+             end.
+Proof. exact m_apply_is_special_case. Qed.
+
+Theorem C16_m_apply_is_special_case_real :
+  forall dr s0, wf s0 ->
+  forall b c m s,
+    (0 <= b_have b <= 64)%Z -> b_state b = stA s0 c ->
+    a_apply_body (real_refill1 dr) (real_refill4 dr) true b m s
+    = if limit_hit b (s_len s) then Some (RErr, b, m)
+      else match m_apply (fun c => fst (real_refill1 dr (stA s0 c))) (fun c => fst (real_refill4 dr (stA s0 c))) m s
+                   (KS (b_out b) (Z.to_nat (b_have b)) c) with
+           | Some (m', st') =>
+               Some (ROk, Buf (stA s0 (ks_ctr st')) (ks_out st') (Z.of_nat (ks_have st'))
+                              (len_after b (s_len s)) (fresh_after b (s_len s)), m')
+           | None => None
+           end.
+Proof. exact real_m_apply_is_special_case. Qed.
+
+(** hash update, lazy form (Skein: block-buffer [input_lazy]) *)
+Theorem C16_hash_update_lazy_reads_in_bounds :
+  forall m s b, slice_ok m s -> bb_ok b -> a_input_lazy b m s <> None.
+Proof. exact input_lazy_reads_in_bounds. Qed.
+
+Theorem C16_hash_update_lazy_address_independent :
+  forall m s b, slice_ok m s -> bb_ok b -> a_input_lazy b m s = Some (input_lazy b (sbytes m s)).
+Proof. exact input_lazy_spec. Qed.
+
+(** StoreBytes x4 read *)
+Theorem C16_storebytes_x4_read :
+  forall size m s, slice_ok m s ->
+    sb_read4 size m s = if (s_len s / 4 =? size) && (s_len s - 3 * (s_len s / 4) =? size)
+                        then Ok (sbytes m s) else Panic m.
+Proof. exact sb_read4_spec. Qed.
+
+(** the VALUE written by the x2 / x4 writes (parts in address order); any other length is the
+    model's panic with memory outside the slice unchanged, never a fault *)
+Theorem C16_storebytes_x2_write_value :
+  forall v0 v1 m s, slice_ok m s ->
+    if (s_len s / 2 =? length v0) && (s_len s - s_len s / 2 =? length v1)
+    then sb_write2 v0 v1 m s = Ok (firstn (s_off s) m ++ (v0 ++ v1) ++ skipn (s_off s + s_len s) m)
+    else exists m', sb_write2 v0 v1 m s = Panic m'
+                    /\ (length m' = length m
+                        /\ firstn (s_off s) m' = firstn (s_off s) m
+                        /\ skipn (s_off s + s_len s) m' = skipn (s_off s + s_len s) m).
+Proof. exact sb_write2_value. Qed.
+
+Theorem C16_storebytes_x4_write_value :
+  forall v0 v1 v2 v3 m s, slice_ok m s ->
+    if (s_len s / 4 =? length v0) && (s_len s / 4 =? length v1) && (s_len s / 4 =? length v2)
+         && (s_len s - 3 * (s_len s / 4) =? length v3)
+    then sb_write4 v0 v1 v2 v3 m s
+         = Ok (firstn (s_off s) m ++ (v0 ++ v1 ++ v2 ++ v3) ++ skipn (s_off s + s_len s) m)
+    else exists m', sb_write4 v0 v1 v2 v3 m s = Panic m'
+                    /\ (length m' = length m
+                        /\ firstn (s_off s) m' = firstn (s_off s) m
+                        /\ skipn (s_off s + s_len s) m' = skipn (s_off s + s_len s) m).
+Proof. exact sb_write4_value. Qed.
+
+(** big-endian forms: [bswap_bytes w] = every [w]-byte word reversed ([rev_words]) *)
+Theorem C16_bswap_value :
+  forall w ws, 0 < w ->
+    bswap_bytes w (bytes_le w ws) = flat_map (be_split w) ws
+    /\ bswap_bytes w (flat_map (be_split w) ws) = bytes_le w ws.
+Proof. intros w ws H. split; [now apply bswap_le_be | now apply bswap_be_le]. Qed.
+
+Theorem C16_storebytes_read_be :
+  forall w size m s, slice_ok m s ->
+    sb_read_be w size m s = if s_len s =? size then Ok (bswap_bytes w (sbytes m s)) else Panic m.
+Proof. exact sb_read_be_spec. Qed.
+
+Theorem C16_storebytes_write_be :
+  forall w v m s, 0 < w -> slice_ok m s ->
+    sb_write_be w v m s = if s_len s =? length v
+                          then Ok (firstn (s_off s) m ++ bswap_bytes w v ++ skipn (s_off s + s_len s) m)
+                          else Panic m.
+Proof. exact sb_write_be_spec. Qed.
+
+Theorem C16_storebytes_x2_x4_read_be :
+  forall w size m s, 0 < w -> size mod w = 0 -> slice_ok m s ->
+    sb_read2_be w size m s = (if (s_len s / 2 =? size) && (s_len s - s_len s / 2 =? size)
+                              then Ok (bswap_bytes w (sbytes m s)) else Panic m)
+    /\ sb_read4_be w size m s = (if (s_len s / 4 =? size) && (s_len s - 3 * (s_len s / 4) =? size)
+                                 then Ok (bswap_bytes w (sbytes m s)) else Panic m).
+Proof. intros w size m s Hw Hm Hs. split; [now apply sb_read2_be_spec | now apply sb_read4_be_spec]. Qed.
+
+Theorem C16_storebytes_x4_write_be_value :
+  forall w v0 v1 v2 v3 m s, 0 < w -> slice_ok m s ->
+    if (s_len s / 4 =? length v0) && (s_len s / 4 =? length v1) && (s_len s / 4 =? length v2)
+         && (s_len s - 3 * (s_len s / 4) =? length v3)
+    then sb_write4_be w v0 v1 v2 v3 m s
+         = Ok (firstn (s_off s) m
+               ++ (bswap_bytes w v0 ++ bswap_bytes w v1 ++ bswap_bytes w v2 ++ bswap_bytes w v3)
+               ++ skipn (s_off s + s_len s) m)
+    else exists m', sb_write4_be w v0 v1 v2 v3 m s = Panic m'
+                    /\ (length m' = length m
+                        /\ firstn (s_off s) m' = firstn (s_off s) m
+                        /\ skipn (s_off s + s_len s) m' = skipn (s_off s + s_len s) m).
+Proof. exact sb_write4_be_value. Qed.
+
+Print Assumptions C16_stream_apply_real_eq_faithful_model.
+Print Assumptions C16_stream_apply_eq_faithful_model.
+Print Assumptions C16_stream_apply_real_address_independent.
+Print Assumptions C16_stream_apply_err_untouched.
+Print Assumptions C16_stream_apply_reachable_value.
+Print Assumptions C16_m_apply_is_special_case.
+Print Assumptions C16_m_apply_is_special_case_real.
+Print Assumptions C16_hash_update_lazy_reads_in_bounds.
+Print Assumptions C16_hash_update_lazy_address_independent.
+Print Assumptions C16_storebytes_x4_read.
+Print Assumptions C16_storebytes_x2_write_value.
+Print Assumptions C16_storebytes_x4_write_value.
+Print Assumptions C16_bswap_value.
+Print Assumptions C16_storebytes_read_be.
+Print Assumptions C16_storebytes_write_be.
+Print Assumptions C16_storebytes_x2_x4_read_be.
+Print Assumptions C16_storebytes_x4_write_be_value.
